@@ -3,10 +3,12 @@ package main
 import (
 	"errors"
 	"fmt"
+	"math"
 	"runtime/debug"
 	"strings"
 	"testing"
 	"time"
+	"unicode/utf8"
 
 	"github.com/rs/zerolog"
 	"github.com/rs/zerolog/diode/verifh/evid"
@@ -61,7 +63,9 @@ var allocFreeNames = []string{"Str", "Strs", "Bytes", "Hex", "Bool", "Bools", "I
 	// the caller allocate although the method itself does not (added after seeded change c07-agent3)
 	"Strs/stack", "Bytes/stack", "Hex/stack", "Bools/stack", "Ints/stack", "Ints8/stack", "Ints16/stack", "Ints32/stack", "Ints64/stack",
 	"Uints/stack", "Uints8/stack", "Uints16/stack", "Uints32/stack", "Uints64/stack", "Floats32/stack", "Floats64/stack", "Times/stack", "Durs/stack",
-	"Str/stack", "RawJSON/stack", "Type/stack", "Dict/stack", "Array/stack"}
+	"Str/stack", "RawJSON/stack", "Type/stack", "Dict/stack", "Array/stack",
+	// always present: values beyond the 32-byte stack buffer of small string conversions that need escaping
+	"Str/long", "Bytes/long", "Strs/long", "Err/long"}
 
 func mkStep(name string, r *rng.R) step {
 	k := "k" + string(rune('a'+r.Intn(26)))
@@ -72,22 +76,43 @@ func mkStep(name string, r *rng.R) step {
 	u64 := r.U64()
 	f64 := (r.Float() - 0.5) * 1e6
 	if r.Chance(1, 4) {
-		f64 = []float64{0, 1e-7, 1e21, 1e22, -1.5e-9, 3}[r.Intn(6)]
+		f64 = []float64{0, 1e-7, 1e21, 1e22, -1.5e-9, 3, math.NaN(), math.Inf(1), math.Inf(-1), math.MaxFloat64, 5e-324}[r.Intn(11)]
 	}
 	t1 := time.Unix(int64(r.Intn(2000000000)), int64(r.Intn(1000000000)))
+	switch r.Intn(6) {
+	case 0:
+		t1 = t1.UTC()
+	case 1:
+		t1 = t1.In(zone0530)
+	case 2:
+		t1 = time.Unix(-int64(r.Intn(2000000000)), 0).UTC() // before 1970
+	}
 	t2 := t1.Add(-time.Duration(r.Intn(1000000000)))
 	d := time.Duration(r.Intn(1000000000))
+	if r.Chance(1, 5) {
+		d = -d
+	}
 	s := shortStr(r)
 	s2 := shortStr(r)
 	b := []byte(shortStr(r))
 	switch name {
 	case "Str":
-		return step{name, 12 + len(s)*6, func(e *zerolog.Event) *zerolog.Event { return e.Str(k, s) }}
+		return step{name, 12 + encLen(s), func(e *zerolog.Event) *zerolog.Event { return e.Str(k, s) }}
 	case "Strs":
 		v := []string{s, s2}
-		return step{name, 20 + (len(s)+len(s2))*6, func(e *zerolog.Event) *zerolog.Event { return e.Strs(k, v) }}
+		if r.Chance(1, 6) {
+			v = [][]string{nil, {}}[r.Intn(2)]
+		}
+		return step{name, 20 + encLen(s) + encLen(s2), func(e *zerolog.Event) *zerolog.Event { return e.Strs(k, v) }}
 	case "Bytes":
-		return step{name, 12 + len(b)*6, func(e *zerolog.Event) *zerolog.Event { return e.Bytes(k, b) }}
+		if r.Chance(1, 8) {
+			b = nil
+		}
+		if len(b) > 32 && needsEscape7(b) {
+			name = "Bytes" // counted below
+			longEscapedBytes++
+		}
+		return step{name, 12 + encLen(string(b)), func(e *zerolog.Event) *zerolog.Event { return e.Bytes(k, b) }}
 	case "Hex":
 		return step{name, 12 + len(b)*2, func(e *zerolog.Event) *zerolog.Event { return e.Hex(k, b) }}
 	case "Bool":
@@ -101,6 +126,9 @@ func mkStep(name string, r *rng.R) step {
 		return step{name, 28, func(e *zerolog.Event) *zerolog.Event { return e.Int(k, v) }}
 	case "Ints":
 		v := []int{int(i64), 0, -1}
+		if r.Chance(1, 6) {
+			v = [][]int{nil, {}, {1, 2, 3, 4, 5, 6, 7, 8, 9, 10}}[r.Intn(3)]
+		}
 		return step{name, 40, func(e *zerolog.Event) *zerolog.Event { return e.Ints(k, v) }}
 	case "Int8":
 		v := int8(i64)
@@ -190,6 +218,23 @@ func mkStep(name string, r *rng.R) step {
 			return e.Dict(k, zerolog.Dict().Str("s", s).Int64("i", i64))
 		}}
 	case "Array":
+		if r.Bool() {
+			// three elements of random kinds (every Array method of the allocation-free kinds, Object and Dict included)
+			o := &pObj{"v", int(i64)}
+			sb := []byte(s)
+			if len(sb) > 12 {
+				sb = sb[:12]
+			}
+			ss := string(sb)
+			kinds := [3]int{r.Intn(22), r.Intn(22), r.Intn(22)} // drawn here: nothing but the calls under test runs in the measured closure
+			return step{name, 260, func(e *zerolog.Event) *zerolog.Event {
+				a := zerolog.Arr()
+				for j := 0; j < 3; j++ {
+					a = elem7(a, kinds[j], ss, i64, f64, t1, d, sb, o)
+				}
+				return e.Array(k, a)
+			}}
+		}
 		return step{name, 40 + len(s)*6, func(e *zerolog.Event) *zerolog.Event {
 			return e.Array(k, zerolog.Arr().Str(s).Int64(i64).Bool(true))
 		}}
@@ -208,6 +253,23 @@ func mkStep(name string, r *rng.R) step {
 		return step{name, 40, func(e *zerolog.Event) *zerolog.Event { return e.Type(k, v) }}
 	case "Func":
 		return step{name, 30, func(e *zerolog.Event) *zerolog.Event { return e.Func(staticFunc) }}
+	case "Str/long", "Bytes/long", "Strs/long", "Err/long":
+		long := "0123456789012345678901234567890123456789\"\\\n\x01é\xff" + s
+		if len(long) > 70 {
+			long = long[:70]
+		}
+		lb := []byte(long)
+		lerr := errors.New(long)
+		switch name {
+		case "Str/long":
+			return step{name, 12 + encLen(long), func(e *zerolog.Event) *zerolog.Event { return e.Str(k, long) }}
+		case "Bytes/long":
+			return step{name, 12 + encLen(long), func(e *zerolog.Event) *zerolog.Event { return e.Bytes(k, lb) }}
+		case "Strs/long":
+			v := []string{long, "a"}
+			return step{name, 24 + encLen(long), func(e *zerolog.Event) *zerolog.Event { return e.Strs(k, v) }}
+		}
+		return step{name, 16 + encLen(long), func(e *zerolog.Event) *zerolog.Event { return e.AnErr(k, lerr) }}
 	case "Strs/stack":
 		return step{name, 20 + (len(s)+len(s2))*6, func(e *zerolog.Event) *zerolog.Event { return e.Strs(k, []string{s, s2}) }}
 	case "Bytes/stack":
@@ -280,7 +342,99 @@ func mkStep(name string, r *rng.R) step {
 	panic("mkStep " + name)
 }
 
+// encLen is the size of s as a JSON string body (the budget keeps chains inside the pooled 500-byte buffer)
+func encLen(s string) int {
+	n := 2
+	for i := 0; i < len(s); {
+		c := s[i]
+		switch {
+		case c == '"' || c == '\\' || c == '\n' || c == '\t' || c == '\r' || c == '\b' || c == '\f':
+			n += 2
+			i++
+		case c < 0x20:
+			n += 6
+			i++
+		case c < utf8.RuneSelf:
+			n++
+			i++
+		default:
+			r, size := utf8.DecodeRuneInString(s[i:])
+			if r == utf8.RuneError && size == 1 {
+				n += 6
+			} else {
+				n += size
+			}
+			i += size
+		}
+	}
+	return n
+}
+
+var longEscapedBytes int64
+
+func needsEscape7(b []byte) bool {
+	for _, c := range b {
+		if c < 0x20 || c == '"' || c == '\\' || c >= 0x7f {
+			return true
+		}
+	}
+	return false
+}
+
 type o64 struct{ x int }
+
+var zone0530 = time.FixedZone("IST", 5*3600+1800)
+
+var errPlain = errors.New("plain error")
+
+// elem7 appends one random element of the allocation-free kinds to an array.
+func elem7(a *zerolog.Array, kind int, s string, i64 int64, f64 float64, t time.Time, d time.Duration, b []byte, o *pObj) *zerolog.Array {
+	switch kind {
+	case 0:
+		return a.Str(s)
+	case 1:
+		return a.Bytes(b)
+	case 2:
+		return a.Hex(b)
+	case 3:
+		return a.Bool(i64&1 == 0)
+	case 4:
+		return a.Int(int(i64))
+	case 5:
+		return a.Int8(int8(i64))
+	case 6:
+		return a.Int16(int16(i64))
+	case 7:
+		return a.Int32(int32(i64))
+	case 8:
+		return a.Int64(i64)
+	case 9:
+		return a.Uint(uint(i64))
+	case 10:
+		return a.Uint8(uint8(i64))
+	case 11:
+		return a.Uint16(uint16(i64))
+	case 12:
+		return a.Uint32(uint32(i64))
+	case 13:
+		return a.Uint64(uint64(i64))
+	case 14:
+		return a.Float32(float32(f64))
+	case 15:
+		return a.Float64(f64)
+	case 16:
+		return a.Time(t)
+	case 17:
+		return a.Dur(d)
+	case 18:
+		return a.Err(errPlain)
+	case 19:
+		return a.Object(o)
+	case 20:
+		return a.Dict(zerolog.Dict().Str("s", s).Float64("f", f64).Time("t", t).Dur("d", d).Bool("b", true))
+	}
+	return a.Int64(-i64)
+}
 
 func c07(args []string) int {
 	f := mustFlags(args)
@@ -296,7 +450,10 @@ func c07(args []string) int {
 		disabled bool
 	}
 	base := zerolog.New(w)
+	nop := zerolog.Nop()
 	loggers := []lg{
+		{"Nop()", nop, true},
+		{"New(nil)", zerolog.New(nil), true},
 		{"plain", base, false},
 		{"context", base.With().Str("svc", "x").Int("n", 1).Logger(), false},
 		{"timestamp-hook", base.With().Timestamp().Logger(), false},
@@ -305,9 +462,18 @@ func c07(args []string) int {
 		{"filtered(info<error)", base.With().Str("svc", "x").Timestamp().Logger().Level(zerolog.ErrorLevel), true},
 	}
 	const runs = 300
+	entries := []struct {
+		name string
+		f    func(l *zerolog.Logger) *zerolog.Event
+	}{{"Info()", (*zerolog.Logger).Info}, {"Trace()", (*zerolog.Logger).Trace}, {"Debug()", (*zerolog.Logger).Debug}, {"Warn()", (*zerolog.Logger).Warn},
+		{"Error()", (*zerolog.Logger).Error}, {"Log()", (*zerolog.Logger).Log},
+		{"WithLevel(Warn)", func(l *zerolog.Logger) *zerolog.Event { return l.WithLevel(zerolog.WarnLevel) }},
+		{"Err(plain)", func(l *zerolog.Logger) *zerolog.Event { return l.Err(errPlain) }}}
+	entry := 0
 	measure := func(l *zerolog.Logger, chain []step, send bool) (allocs float64, writes int) {
+		start := entries[entry].f
 		fn := func() {
-			e := l.Info()
+			e := start(l)
 			for i := range chain {
 				e = chain[i].f(e)
 			}
@@ -330,8 +496,21 @@ func c07(args []string) int {
 		for i := range chain {
 			names[i] = chain[i].name
 		}
+		// the entry point rotates; a logger filtered at Error level stays filtered only below Error
+		entry = idx % len(entries)
+		if l.name == "filtered(info<error)" && (entries[entry].name == "Error()" || entries[entry].name == "Err(plain)" || entries[entry].name == "Log()") {
+			entry = 0
+		}
+		// global settings with a specified, fixed-size rendering rotate too
+		tf, du, di, fp := zerolog.TimeFieldFormat, zerolog.DurationFieldUnit, zerolog.DurationFieldInteger, zerolog.FloatingPointPrecision
+		zerolog.TimeFieldFormat = []string{time.RFC3339, "", zerolog.TimeFormatUnixMs, zerolog.TimeFormatUnixMicro, zerolog.TimeFormatUnixNano, time.RFC3339Nano, "2006-01-02 15:04:05.000"}[(idx/3)%7]
+		zerolog.DurationFieldUnit = []time.Duration{time.Millisecond, time.Second, time.Nanosecond}[(idx/5)%3]
+		zerolog.DurationFieldInteger = (idx/7)%2 == 1
+		zerolog.FloatingPointPrecision = []int{-1, -1, 3}[(idx/11)%3]
 		allocs, writes := measure(&l.l, chain, send)
-		desc := fmt.Sprintf("logger=%s chain=Info().%s.%s", l.name, strings.Join(names, "."), map[bool]string{true: "Send()", false: "Msg(..)"}[send])
+		settings := fmt.Sprintf("TimeFieldFormat=%q DurationFieldUnit=%d DurationFieldInteger=%v FloatingPointPrecision=%d", zerolog.TimeFieldFormat, zerolog.DurationFieldUnit, zerolog.DurationFieldInteger, zerolog.FloatingPointPrecision)
+		zerolog.TimeFieldFormat, zerolog.DurationFieldUnit, zerolog.DurationFieldInteger, zerolog.FloatingPointPrecision = tf, du, di, fp
+		desc := fmt.Sprintf("logger=%s chain=%s.%s.%s [%s]", l.name, entries[entry].name, strings.Join(names, "."), map[bool]string{true: "Send()", false: "Msg(..)"}[send], settings)
 		rep := map[string]interface{}{"check": "c07", "seed": f.Seed, "tier": f.Tier, "index": idx, "chain": desc, "allocs_per_run": allocs}
 		if allocs >= 1 {
 			// signature: the set of container methods involved, so that distinct leaks get distinct signatures
@@ -409,6 +588,7 @@ func c07(args []string) int {
 			out.Sample(map[string]interface{}{"chain": names, "estimated_size": size}, 5)
 		}
 	}
+	out.Count("bytes_steps_longer_than_32_needing_escapes_generated", longEscapedBytes)
 	out.Extra["binary_log_build"] = isBinaryBuild()
 	out.Extra["alloc_free_method_set"] = allocFreeNames
 	out.Finish(f)
